@@ -195,7 +195,7 @@ def replay_roundtrip(d):
     return (not p), "seed %s: %s" % (d["inputs"]["seed"], p or "round trip ok")
 
 
-@bounded("C15.native_roundtrip", ["C15"], note="random real ReadAssignment objects (all enum members, None ids, negative event "
+@bounded("C15.native_roundtrip", ["C15"], shards=4, note="random real ReadAssignment objects (all enum members, None ids, negative event "
          "offsets, sentinel positions, dict values of all three kinds) written with the real serialize and read back by the "
          "full and the abridged reader; bounded: N random objects")
 def c15_native(tier, rng):
